@@ -27,6 +27,9 @@ READER_ALIASES = {
 }
 
 
+VERSION_HELPERS = {}  # fid -> single return expression of a free/static helper whose only inputs are NiVersion objects
+
+
 def pure_version_init(e):
     """is e built only from NiVersion accessors / predicates, constants and stream/header plumbing?"""
     saw = False
@@ -37,6 +40,8 @@ def pure_version_init(e):
                 saw = True
             elif n.get("short") in ("GetVersion", "GetHeader"):
                 continue
+            elif n.get("fid") in VERSION_HELPERS:
+                saw = True  # e.g. a file-static `HasPerParticleArrays(const NiVersion&)` extracted from repeated version tests
             else:
                 return False
         elif k == "Member" and n.get("owner") == NIV:
@@ -61,6 +66,36 @@ class VersionEval:
                 ret = self._single_return(f)
                 if ret is not None:
                     self.pred_bodies[f["short"]] = ret
+        # helpers of the form `bool H(const NiVersion& v) { return <expression over v only>; }`
+        self.helpers = {}
+        for f in F.fns.values():
+            if f.get("cls") == NIV or f.get("tmpl") == "pattern" or not f.get("params"):
+                continue
+            if not all("NiVersion" in (p.get("ct") or p.get("t") or "") for p in f["params"]):
+                continue
+            ret = self._single_return(f)
+            if ret is None:
+                continue
+            pids = {p["id"] for p in f["params"]}
+            ok = True
+            saw = False
+            for n in walk(ret):
+                k_ = n["k"]
+                if k_ == "Call":
+                    if n.get("cls") == NIV:
+                        saw = True
+                    else:
+                        ok = False
+                elif k_ == "Member" and n.get("owner") == NIV:
+                    saw = True
+                elif k_ == "Ref":
+                    if n.get("rk") in ("local", "param") and n.get("id") not in pids:
+                        ok = False
+                elif k_ not in ("Binary", "Unary", "Lit", "Cast", "Cond", "Member"):
+                    ok = False
+            if ok and saw:
+                self.helpers[f["id"]] = ret
+                VERSION_HELPERS[f["id"]] = ret  # union over the trees analysed in this process (current + reference)
 
     @staticmethod
     def _single_return(fn):
@@ -97,6 +132,8 @@ class VersionEval:
                 if cv is None:
                     unknown = True
             return None if unknown else False
+        if k == "Call" and e.get("fid") in self.helpers:
+            return self.ev(self.helpers[e["fid"]], ver, depth + 1, binds)
         if binds and k == "Ref" and e.get("id") in binds:
             return binds[e["id"]]
         if k == "Ref" and e.get("rk") == "local" and (e.get("id"), e.get("name")) in VERSION_LOCALS:
@@ -190,7 +227,7 @@ class VersionEval:
         if is_node(e) and e["k"] == "VerOr":
             return True
         for n in walk(e):
-            if n["k"] == "Call" and n.get("cls") == NIV:
+            if n["k"] == "Call" and (n.get("cls") == NIV or n.get("fid") in self.helpers):
                 return True
             if n["k"] == "Member" and n.get("owner") == NIV:
                 return True
